@@ -468,7 +468,7 @@ func valueDesc(v ssa.Value) string {
 		return "<nil>"
 	}
 	if f := loadedField(v); f != nil {
-		return "." + f.Name()
+		return "." + fieldName(f)
 	}
 	switch x := v.(type) {
 	case *ssa.Const:
@@ -580,7 +580,7 @@ func valueOrigin(v ssa.Value) string {
 		case *ssa.UnOp:
 			if x.Op == token.MUL {
 				if f := loadedField(x); f != nil {
-					return "field " + f.Name()
+					return "field " + fieldName(f)
 				}
 				switch y := x.X.(type) {
 				case *ssa.Alloc:
@@ -604,7 +604,7 @@ func valueOrigin(v ssa.Value) string {
 			return "captured " + x.Name()
 		case *ssa.Field:
 			if f := fieldValVar(x); f != nil {
-				return "field " + f.Name()
+				return "field " + fieldName(f)
 			}
 		case *ssa.Phi:
 			return "phi " + x.Comment
